@@ -55,7 +55,8 @@ DESIGN_REF = "DESIGN.md §5 C09"
 MODULES = ["TypelibModel.Props.C09"]
 TABLES = False
 RULE = ("programs = (a) every adjacency structure (self loops included) over 1-2 synthesised classes and a sample (quick) / all "
-        "512 (thorough) over 3, a sample over 4 (thorough); every edge drawn from {Optional[X], X | None, list[X], dict[str, X], "
+        "512 (thorough) over 3, a sample over 4, every DAG (strict upper triangle: sharing) over 3 and over 4 (a sample in quick); "
+        "every edge drawn from {Optional[X], X | None, list[X], dict[str, X], "
         "tuple[X, ...], X itself, NewType of X, TypeAliasType of X, TypeAliasType of list[X], string-valued TypeAliasType of X / "
         "of list[X]}, field names chosen per target so that equal (name, annotation) pairs recur in different classes, optional "
         "second edge to the same target, class flavours dataclass / NamedTuple / TypedDict / plain, nested qualnames, "
@@ -199,6 +200,12 @@ def all_adj(k):
         yield {p for p, b in zip(pairs, bits) if b}
 
 
+def all_dags(k):
+    pairs = [(i, j) for i in range(k) for j in range(i + 1, k)]
+    for bits in itertools.product((0, 1), repeat=len(pairs)):
+        yield {p for p, b in zip(pairs, bits) if b}
+
+
 def is_cyclic(k, adj):
     reach = {i: {j for (a, j) in adj if a == i} for i in range(k)}
     for _ in range(k):
@@ -216,21 +223,26 @@ def build_jobs(ctx):
     for k in (1, 2):
         topo += [(k, adj) for adj in all_adj(k)]
     three = [(3, adj) for adj in all_adj(3)]
+    pairs4 = [(i, j) for i in range(4) for j in range(4)]
+    # DAGs with sharing: every subset of the strict upper triangle (3 classes: all 8; 4 classes: all 64 / a sample)
+    topo += [(3, adj) for adj in all_dags(3)]
+    dags4 = [(4, adj) for adj in all_dags(4)]
     if quick:
-        topo += rng.sample(three, min(len(three), ctx.n(70, 512)))
+        topo += rng.sample(three, min(len(three), ctx.n(230, 512)))
+        topo += rng.sample(dags4, min(len(dags4), ctx.n(16, 64)))
+        for _ in range(ctx.n(10, 0)):
+            topo.append((4, {p for p in pairs4 if rng.random() < 0.25}))
     else:
-        topo += three
-        pairs4 = [(i, j) for i in range(4) for j in range(4)]
+        topo += three + dags4
         for _ in range(ctx.n(0, 500)):
             topo.append((4, {p for p in pairs4 if rng.random() < 0.3}))
-    # fixed shapes from the fix history of graph.py are always present
     for n, (k, adj) in enumerate(topo):
         style = rng.choice(["plain", "plain", "nested", "samename", "multimod"])
         prog, kinds_used = topo_program(k, adj, rng, f"t{n}", style)
         jobs.append({"prog": prog, "roots": roots_for(prog, rng, not quick or k < 3), "family": "topology",
                      "meta": {"k": k, "edges": len(adj), "cyclic": is_cyclic(k, adj), "style": style,
                               "edge_kinds": sorted(set(kinds_used))}})
-    for n in range(ctx.n(50, 700)):
+    for n in range(ctx.n(220, 1500)):
         g = universe.Gen(rng, universe.Cfg(any_ok=True, classes=(0, 3), enums=(0, 1)))
         prog = g.program(f"u{n}")
         roots = [{"ty": g.ty(3), "kind": "annotation"} for _ in range(4)]
